@@ -15,6 +15,7 @@ from typing import Any, Callable, Dict, List, Optional
 
 # ---- per-run state (set by c14.run_program) ---------------------------------------------------
 HISTORY: List[List[Any]] = []
+TAGS: List[Any] = []  # parallel to HISTORY: which program's callable was reached (None = untagged)
 FAULTS: Dict[str, Dict[str, Any]] = {}  # function name -> fault spec (site-keyed: 1 fn name per site)
 FIRED: Dict[str, int] = {}
 
@@ -32,6 +33,7 @@ class HostTypeError(TypeError):
 
 def reset(faults: Dict[str, Dict[str, Any]]) -> None:
     HISTORY.clear()
+    TAGS.clear()
     FAULTS.clear()
     FAULTS.update(faults)
     FIRED.clear()
@@ -69,11 +71,12 @@ def scripted(name: str, args: List[Any]) -> Any:
     raise AssertionError(name)
 
 
-def dispatch(name: str, args: Any) -> Any:
+def dispatch(name: str, args: Any, tag: Any = None) -> Any:
     from celpy.evaluation import CELEvalError
 
     args = list(args)
     HISTORY.append([name, [_canon_arg(a) for a in args]])
+    TAGS.append(tag)
     fault = FAULTS.get(name)
     if fault is not None:
         when = fault.get("when")
@@ -121,34 +124,34 @@ for _n in list(INT_FUNCS) + list(BOOL_FUNCS) + ["size", "contains", "startsWith"
 
 
 # (2) nested defs (closures)
-def make_nested(name: str) -> Callable[..., Any]:
-    tag = name
-
+def make_nested(name: str, tag: Any = None) -> Callable[..., Any]:
     def inner(*args: Any) -> Any:
-        return dispatch(tag, args)
+        return dispatch(name, args, tag)
 
     inner.__name__ = name  # the list form keys by __name__; __qualname__ stays "<locals>"-qualified
     return inner
 
 
 # (3) lambdas
-def make_lambda(name: str) -> Callable[..., Any]:
-    return lambda *args: dispatch(name, args)
+def make_lambda(name: str, tag: Any = None) -> Callable[..., Any]:
+    return lambda *args: dispatch(name, args, tag)
 
 
 # (4) callable objects
 class CallableObject:
-    def __init__(self, name: str) -> None:
+    def __init__(self, name: str, tag: Any = None) -> None:
         self.name = name
+        self.tag = tag
 
     def __call__(self, *args: Any) -> Any:
-        return dispatch(self.name, args)
+        return dispatch(self.name, args, self.tag)
 
 
 # (4b) callable objects that are not hashable (a dataclass-like value object with __eq__)
 class ValueLikeCallable:
-    def __init__(self, name: str) -> None:
+    def __init__(self, name: str, tag: Any = None) -> None:
         self.name = name
+        self.tag = tag
 
     def __eq__(self, other: Any) -> bool:
         return isinstance(other, ValueLikeCallable) and other.name == self.name
@@ -156,32 +159,34 @@ class ValueLikeCallable:
     __hash__ = None  # type: ignore[assignment]
 
     def __call__(self, *args: Any) -> Any:
-        return dispatch(self.name, args)
+        return dispatch(self.name, args, self.tag)
 
 
 class Registry(dict):
     """A dict subclass (unhashable) whose bound method is handed out as the CEL function."""
 
-    def __init__(self, name: str) -> None:
+    def __init__(self, name: str, tag: Any = None) -> None:
         super().__init__()
         self["name"] = name
+        self["tag"] = tag
 
     def lookup(self, *args: Any) -> Any:
-        return dispatch(self["name"], args)
+        return dispatch(self["name"], args, self["tag"])
 
 
 # (5) bound methods
 class Service:
-    def __init__(self, name: str) -> None:
+    def __init__(self, name: str, tag: Any = None) -> None:
         self.name = name
+        self.tag = tag
 
     def handler(self, *args: Any) -> Any:
-        return dispatch(self.name, args)
+        return dispatch(self.name, args, self.tag)
 
 
 # (6) functools.partial objects
-def _partial_target(name: str, *args: Any) -> Any:
-    return dispatch(name, args)
+def _partial_target(name: str, tag: Any, *args: Any) -> Any:
+    return dispatch(name, args, tag)
 
 
 def operator_override(name: str) -> Callable[..., Any]:
@@ -228,25 +233,27 @@ def celpy_visible_def(name: str) -> Callable[..., Any]:
     return mod.__dict__[name]
 
 
-def make_callable(kind: str, name: str) -> Callable[..., Any]:
+def make_callable(kind: str, name: str, tag: Any = None) -> Callable[..., Any]:
+    """tag identifies the program the callable is supplied to (module-level defs are singletons of
+    the host module and carry no tag)."""
     if kind == "celpy_visible_def":
         return celpy_visible_def(name)
     if kind == "module_def":
         return MODULE_DEFS[name]
     if kind == "nested_def":
-        return make_nested(name)
+        return make_nested(name, tag)
     if kind == "lambda":
-        return make_lambda(name)
+        return make_lambda(name, tag)
     if kind == "instance":
-        return CallableObject(name)
+        return CallableObject(name, tag)
     if kind == "unhashable_instance":
-        return ValueLikeCallable(name)
+        return ValueLikeCallable(name, tag)
     if kind == "unhashable_bound_method":
-        return Registry(name).lookup
+        return Registry(name, tag).lookup
     if kind == "bound_method":
-        return Service(name).handler
+        return Service(name, tag).handler
     if kind == "partial":
-        return functools.partial(_partial_target, name)
+        return functools.partial(_partial_target, name, tag)
     raise ValueError(kind)
 
 
